@@ -49,12 +49,13 @@ def check(run, ctx):
     Y1 = run.rule("Y1", "rule ids used in documented suppressions / output examples are emitted ids, aliases or linter prefixes", floor=25,
                   decides="a documented suppression or filter names a rule that exists; a documented command can be run")
     id_re = re.compile(r"(?:(?:thailint|design-lint):\s*ignore(?:-file|-next-line)?\[|(?:thailint|design-lint):\s*ignore-start\s+|\"rule_id\":\s*\"|Rule ID[^`\n]*`|\"ruleId\":\s*\")([a-z][a-z0-9_-]*(?:\.[a-z0-9_*-]+)?)")
+    tick_re = re.compile(r"`((?:" + "|".join(sorted(re.escape(x) for x in prefixes)) + r")\.[a-z][a-z0-9-]*)`")
     seen = set()
     foreign_ok = {"magic-number", "rule-id", "rule-name", "rule", "rules", "rule1", "rule2", "my-rule", "category", "linter-name", "specific-rule"}
     for pg in pages + [os.path.join(ctx.root, "docs", "how-to-ignore-violations.md")]:
         txt = open(pg, encoding="utf-8").read()
         rel = os.path.relpath(pg, ctx.root)
-        for m in id_re.finditer(txt):
+        for m in list(id_re.finditer(txt)) + list(tick_re.finditer(txt)):
             rid = m.group(1)
             if (rel, rid) in seen:
                 continue
